@@ -71,7 +71,7 @@ namespace
   template<typename DT, int BS>
   void slip_vectors(verif::Ctx& c, const std::string& kname)
   {
-    const int N = c.thorough ? 4 : 3;
+    const int N = c.thorough ? 5 : 4;
     for(int n = 0; n <= N; ++n) for(unsigned S = 0; S < (1u << n); ++S) for(int order = 0; order < NUM_ORD; ++order) for(int nv = 0; nv < 6; ++nv) for(int op = 0; op < 4; ++op)
     {
       if(order == ORD_ARRAY) continue;
@@ -129,7 +129,7 @@ namespace
   void mean_vectors(verif::Ctx& c, const std::string& kname)
   {
     typedef DenseVector<DT, Index> Vec;
-    const int N = c.thorough ? 8 : 5;
+    const int N = c.thorough ? 12 : 8;
     for(int n = 0; n <= N; ++n) for(int wv = 0; wv < 4; ++wv) for(int sm = 0; sm < 2; ++sm) for(int ctor = 0; ctor < 3; ++ctor) for(int op = 0; op < 4; ++op)
     {
       if(ctor == 2 && (wv != 0 || sm != 0)) continue; // default-constructed (empty) filter on a vector of length n
@@ -162,7 +162,7 @@ namespace
   {
     typedef DenseVectorBlocked<DT, Index, BS> Vec;
     typedef Tiny::Vector<DT, BS> VT;
-    const int N = c.thorough ? 6 : 4;
+    const int N = c.thorough ? 9 : 6;
     for(int n = 0; n <= N; ++n) for(int wv = 0; wv < 4; ++wv) for(int sm = 0; sm < 2; ++sm) for(int ctor = 0; ctor < 3; ++ctor) for(int op = 0; op < 4; ++op)
     {
       if(ctor == 2 && (wv != 0 || sm != 0)) continue;
@@ -201,7 +201,7 @@ namespace
   {
     typedef DenseVector<DT, Index> Vec;
     static Dist::Comm world = Dist::Comm::world();
-    const int N = c.thorough ? 8 : 5;
+    const int N = c.thorough ? 12 : 8;
     for(int n = 0; n <= N; ++n) for(int wv = 0; wv < 4; ++wv) for(int fq = 0; fq < 3; ++fq) for(int cm = 0; cm < 2; ++cm) for(int op = 0; op < 4; ++op)
     {
       if(!c.want()) continue;
